@@ -13,6 +13,7 @@
 From Coq Require Import PrimFloat.
 From PV Require Import Lib.Common Lib.FloatK Model.C01_Meiosis Model.C01_Mating Model.C09_Stats Model.C10_Limits.
 From PV Require Import Proofs.C01_Meiosis Proofs.C09_Stats Proofs.C10_Float Proofs.C10_Limits Proofs.C10_History.
+From PV Require Import Gen.C10_Kernel Proofs.C10_Kernel Proofs.C10_Laws.
 Local Open Scope Z_scope.
 
 (** ENVELOPE — for every population, every additive model and every trait: lsl <= gebv(individual) <= usl for every member *)
@@ -118,6 +119,128 @@ Theorem C10_reciprocal_refuted :
   usl_numpy 1 2 [[(-1)%Q]] [afreq_f1 98 98] = [(2 * -1 * 1 + 0)%Q].
 Proof. exact reciprocal_refuted. Qed.
 Print Assumptions C10_reciprocal_refuted.
+
+(** ** the kernel expressions of the CURRENT source (Gen/C10_Kernel.v is regenerated from DenseAdditiveLinearGenomicModel.py,
+    Dense(Phased)GenotypeMatrix.py and mate/util.py on every run).  [gen_*] (Proofs/C10_Kernel.v) assemble them in the way the source does:
+    gen_usl_obj / gen_lsl_obj = usl / lsl of a phased object, gen_*_gmat of an unphased object, gen_*_arr of a raw array,
+    gen_gebv_numpy / gen_gebv the breeding values without / with the intercept, gen_gamete one row of mat_meiosis. *)
+
+(** the generated expressions are the ones the model is built from: availability tests, summand and axis, the three frequency
+    quotients, which attribute the ploidy is read from and its default, callee and argument order of usl / lsl, the product Z @ u_a *)
+Theorem C10_kernel_is_model :
+  (forall u f, k_usl_geno u f = usl_ind u f) /\ (forall u f, k_lsl_geno u f = lsl_ind u f) /\
+  (forall t ploidy u freq, gen_usl_numpy t ploidy u freq = usl_numpy t ploidy u freq) /\
+  (forall t ploidy u freq, gen_lsl_numpy t ploidy u freq = lsl_numpy t ploidy u freq) /\
+  (forall n p geno, gen_freq_pgmat n p geno = freq_phased n p geno) /\
+  (forall ploidy n p geno, gen_freq_gmat ploidy p (dosage n p geno) = freq_dosage ploidy n p geno) /\
+  (forall ploidy n p geno, gen_freq_arr k_usl_arr_afreq k_usl_arr_denom ploidy p (dosage n p geno) = freq_dosage ploidy n p geno) /\
+  (forall ploidy n p geno, gen_freq_arr k_lsl_arr_afreq k_lsl_arr_denom ploidy p (dosage n p geno) = freq_dosage ploidy n p geno) /\
+  (forall t n p u beta geno, gen_usl_obj t n p u beta geno false = usl t n p u geno) /\
+  (forall t n p u beta geno, gen_lsl_obj t n p u beta geno false = lsl t n p u geno) /\
+  (forall t n p u beta geno, gen_usl_obj t n p u beta geno true = usl_unscaled t n p u beta geno) /\
+  (forall t n p u beta geno, gen_lsl_obj t n p u beta geno true = lsl_unscaled t n p u beta geno) /\
+  (forall t n p ploidy u beta geno, gen_usl_gmat t n p ploidy u beta geno false = usl_dosage t n p ploidy u geno) /\
+  (forall t n p ploidy u beta geno, gen_lsl_gmat t n p ploidy u beta geno false = lsl_dosage t n p ploidy u geno) /\
+  (forall t n p ploidy u beta geno, gen_usl_arr t n p (Some ploidy) u beta geno false = usl_dosage t n p ploidy u geno) /\
+  (forall t n p ploidy u beta geno, gen_lsl_arr t n p (Some ploidy) u beta geno false = lsl_dosage t n p ploidy u geno) /\
+  (forall t n p u beta geno, gen_usl_arr t n p None u beta geno false = usl_dosage t n p 2 u geno) /\
+  (forall t n p u beta geno, gen_lsl_arr t n p None u beta geno false = lsl_dosage t n p 2 u geno) /\
+  (forall t u dos, gen_gebv_numpy t u dos = gebv_numpy t u dos) /\ (forall t u beta dos, gen_gebv t u beta dos = gebv_unscaled t u beta dos) /\
+  (forall ploidy nph n p, k_usl_obj_ploidy ploidy nph = ploidy /\ k_lsl_obj_ploidy ploidy nph = ploidy /\ k_usl_default_ploidy = 2 /\ k_lsl_default_ploidy = 2 /\ k_pgmat_ploidy nph n p = nph /\ k_gmat_select_ploidy ploidy nph = ploidy).
+Proof.
+  exact (conj k_usl_geno_model (conj k_lsl_geno_model (conj gen_usl_numpy_model (conj gen_lsl_numpy_model (conj gen_freq_pgmat_model
+        (conj gen_freq_gmat_model (conj gen_freq_arr_usl_model (conj gen_freq_arr_lsl_model (conj gen_usl_obj_model (conj gen_lsl_obj_model
+        (conj gen_usl_obj_unscaled_model (conj gen_lsl_obj_unscaled_model (conj gen_usl_gmat_model (conj gen_lsl_gmat_model
+        (conj gen_usl_arr_model (conj gen_lsl_arr_model (conj gen_usl_arr_default_model (conj gen_lsl_arr_default_model
+        (conj gen_gebv_numpy_model (conj gen_gebv_model k_ploidy_model)))))))))))))))))))).
+Qed.
+Print Assumptions C10_kernel_is_model.
+
+(** the limits and the breeding values are shifted by one and the same contrast Xstar = [1, 1/q, ..., 1/q], q = rows of beta *)
+Theorem C10_kernel_contrast :
+  (k_usl_xstar_rest = k_gebv_xstar_rest /\ k_lsl_xstar_rest = k_gebv_xstar_rest /\ k_usl_xstar0 = k_gebv_xstar0 /\ k_lsl_xstar0 = k_gebv_xstar0 /\
+   k_usl_nfixed = k_gebv_nfixed /\ k_lsl_nfixed = k_gebv_nfixed) /\
+  (forall t beta, gen_location_usl t beta = location t beta /\ gen_location_lsl t beta = location t beta /\ gen_location_gebv t beta = location t beta).
+Proof. exact (conj k_contrast_shared (fun t beta => conj (gen_location_usl_model t beta) (conj (gen_location_lsl_model t beta) (gen_location_gebv_model t beta)))). Qed.
+Print Assumptions C10_kernel_contrast.
+
+(** BOUNDARY about the generated expressions: the availability tests of the source applied to the frequency quotient of the source
+    (phased object, unphased object, raw array in usl, raw array in lsl) decide on the integer allele count, for every ploidy * n <= 2^53 *)
+Theorem C10_kernel_tests_are_counts : forall (u : Q) (c ploidy n : Z), 0 <= c <= ploidy * n -> 0 < ploidy * n <= 2^53 ->
+  (k_usl_geno u (k_pgmat_afreq (f_of_Z c) (f_of_Z (k_pgmat_denom ploidy n))) = usl_cnt u c (ploidy * n) /\
+   k_lsl_geno u (k_pgmat_afreq (f_of_Z c) (f_of_Z (k_pgmat_denom ploidy n))) = lsl_cnt u c (ploidy * n)) /\
+  (k_usl_geno u (k_gmat_afreq (f_of_Z c) (f_of_Z (k_gmat_denom ploidy n))) = usl_cnt u c (ploidy * n) /\
+   k_lsl_geno u (k_gmat_afreq (f_of_Z c) (f_of_Z (k_gmat_denom ploidy n))) = lsl_cnt u c (ploidy * n)) /\
+  (k_usl_geno u (k_usl_arr_afreq (f_of_Z c) (f_of_Z (k_usl_arr_denom ploidy n))) = usl_cnt u c (ploidy * n) /\
+   k_lsl_geno u (k_lsl_arr_afreq (f_of_Z c) (f_of_Z (k_lsl_arr_denom ploidy n))) = lsl_cnt u c (ploidy * n)).
+Proof. exact kernel_tests_are_counts. Qed.
+Print Assumptions C10_kernel_tests_are_counts.
+
+(** ENVELOPE about the generated pipeline, without and with the intercept (each side with its own generated contrast), and TIGHTNESS *)
+Theorem C10_kernel_brackets : forall t n p u beta geno s k, wf n p geno -> model_ok p t u -> (s < n)%nat -> (k < t)%nat ->
+  (nth k (gen_lsl_obj t n p u beta geno false) 0 <= nth k (nth s (gen_gebv_numpy t u (dosage n p geno)) []) 0)%Q /\
+  (nth k (nth s (gen_gebv_numpy t u (dosage n p geno)) []) 0 <= nth k (gen_usl_obj t n p u beta geno false) 0)%Q.
+Proof. exact kernel_brackets. Qed.
+Print Assumptions C10_kernel_brackets.
+
+Theorem C10_kernel_brackets_unscaled : forall t n p u beta geno s k, wf n p geno -> model_ok p t u -> Forall (fun r => length r = t) beta ->
+  (s < n)%nat -> (k < t)%nat ->
+  (nth k (gen_lsl_obj t n p u beta geno true) 0 <= nth k (nth s (gen_gebv t u beta (dosage n p geno)) []) 0)%Q /\
+  (nth k (nth s (gen_gebv t u beta (dosage n p geno)) []) 0 <= nth k (gen_usl_obj t n p u beta geno true) 0)%Q.
+Proof. exact kernel_brackets_unscaled. Qed.
+Print Assumptions C10_kernel_brackets_unscaled.
+
+Theorem C10_kernel_fixed_tight : forall t n p u beta geno s k, wf n p geno -> model_ok p t u -> fixed_all p geno -> (s < n)%nat -> (k < t)%nat ->
+  (nth k (gen_lsl_obj t n p u beta geno false) 0 == nth k (nth s (gen_gebv_numpy t u (dosage n p geno)) []) 0)%Q /\
+  (nth k (gen_usl_obj t n p u beta geno false) 0 == nth k (nth s (gen_gebv_numpy t u (dosage n p geno)) []) 0)%Q.
+Proof. exact kernel_fixed_tight. Qed.
+Print Assumptions C10_kernel_fixed_tight.
+
+(** the routes of the source (phased object, unphased diploid object, raw array with default or explicit ploidy 2) agree, as generated *)
+Theorem C10_kernel_routes_agree : forall t n p u beta geno, wf n p geno ->
+  gen_usl_gmat t n p 2 u beta geno false = gen_usl_obj t n p u beta geno false /\ gen_lsl_gmat t n p 2 u beta geno false = gen_lsl_obj t n p u beta geno false /\
+  gen_usl_arr t n p None u beta geno false = gen_usl_obj t n p u beta geno false /\ gen_lsl_arr t n p None u beta geno false = gen_lsl_obj t n p u beta geno false /\
+  gen_usl_arr t n p (Some 2) u beta geno false = gen_usl_obj t n p u beta geno false /\ gen_lsl_arr t n p (Some 2) u beta geno false = gen_lsl_obj t n p u beta geno false.
+Proof. exact kernel_routes_agree. Qed.
+Print Assumptions C10_kernel_routes_agree.
+
+(** CLOSURE at the source: one gamete row of mat_meiosis assembled from the generated crossover test, phase toggle and copy
+    statements (destination segment, source phase / taxon / segment) is the gamete of the model — a locus-by-locus choice between
+    the two chromosome copies of the selected parent, which is what [C10_programme_closed] rests on *)
+Theorem C10_kernel_gamete : forall geno i s rnd xoprob, length rnd = length xoprob ->
+  length (row geno 0 s) = length xoprob -> length (row geno 1 s) = length xoprob ->
+  gen_gamete geno i s rnd xoprob = Some (gamete geno s rnd xoprob).
+Proof. exact kernel_gamete. Qed.
+Print Assumptions C10_kernel_gamete.
+
+(** ** LAWS in the effects (what the session observations of the check are compared with: effects negated in place, a multiple
+    installed through the setter, on one and the same model object) *)
+(** negating every effect exchanges the two limits: usl(-u) = -lsl(u), lsl(-u) = -usl(u) — for every frequency vector and ploidy ... *)
+Theorem C10_negation_exchanges_limits : forall t ploidy p u freq k, model_ok p t u -> length freq = p -> (k < t)%nat ->
+  (nth k (usl_numpy t ploidy (qmapll Qopp u) freq) 0 == - nth k (lsl_numpy t ploidy u freq) 0)%Q /\
+  (nth k (lsl_numpy t ploidy (qmapll Qopp u) freq) 0 == - nth k (usl_numpy t ploidy u freq) 0)%Q.
+Proof. exact limits_negate. Qed.
+Print Assumptions C10_negation_exchanges_limits.
+
+(** ... a positive common factor of the effects factors out of both limits (scales 2^-40 ... 2^20 of the generators are instances) *)
+Theorem C10_scale_covariance : forall t ploidy p u freq k (c : Q), (0 < c)%Q -> model_ok p t u -> length freq = p -> (k < t)%nat ->
+  (nth k (usl_numpy t ploidy (qmapll (Qmult c) u) freq) 0 == c * nth k (usl_numpy t ploidy u freq) 0)%Q /\
+  (nth k (lsl_numpy t ploidy (qmapll (Qmult c) u) freq) 0 == c * nth k (lsl_numpy t ploidy u freq) 0)%Q.
+Proof. exact limits_scale. Qed.
+Print Assumptions C10_scale_covariance.
+
+(** ... and the same for the limits of a population *)
+Theorem C10_population_laws : forall t n p u geno k, wf n p geno -> model_ok p t u -> (k < t)%nat ->
+  ((nth k (usl t n p (qmapll Qopp u) geno) 0 == - nth k (lsl t n p u geno) 0)%Q /\
+   (nth k (lsl t n p (qmapll Qopp u) geno) 0 == - nth k (usl t n p u geno) 0)%Q) /\
+  forall c : Q, (0 < c)%Q ->
+   (nth k (usl t n p (qmapll (Qmult c) u) geno) 0 == c * nth k (usl t n p u geno) 0)%Q /\
+   (nth k (lsl t n p (qmapll (Qmult c) u) geno) 0 == c * nth k (lsl t n p u geno) 0)%Q.
+Proof. intros t n p u geno k H Hu Hk. split; [exact (pop_negate t n p u geno k H Hu Hk) | intros c Hc; exact (pop_scale t n p u geno k c Hc H Hu Hk)]. Qed.
+Print Assumptions C10_population_laws.
+
+Example C10_laws_hyps_satisfiable : (0 < 4)%Q /\ wf 2 3 ex_geno /\ model_ok 3 2 ex_u /\ length [0%float; 1%float; 0.5%float] = 3%nat.
+Proof. split; [reflexivity|]. split; [exact (proj1 ex_wf)|]. split; [exact (proj1 (proj2 ex_wf)) | reflexivity]. Qed.
 
 (** non-vacuity: a two-founder, three-locus, two-trait programme (two-way cross, then doubled haploids) meets every hypothesis,
     runs for two generations and strictly tightens the upper limit of both traits *)
